@@ -32,6 +32,11 @@ RUNS = [
     # not a run at all: other subcommands that work on the same output directory; what the last
     # completed run recorded must be addressed exactly as before
     {"name": "checkpoint-delete-then-update", "noop": [["checkpoint", "delete"], ["checkpoint", "update"]], "pairs": []},
+    # a run that executes its command and then cannot write its own result record (the command is named like
+    # the record file, so a directory is in the way): a fatal error, not a completed run
+    # a sequence that expands to no command at all: a completed run with an empty result list
+    {"name": "empty-sequence", "args": ["-s", "noop"], "pairs": [], "extra": True},   # (extra: only in the bounded-depth variant of the search)
+    {"name": "abort-result-record-unwritable", "args": ["-c", "result.json.zst", "-t", "a"], "pairs": [], "aborts": True},
 ]
 SCRIPTS = {
     ("build", "a"): (["out " + "build of a line 1\n".encode().hex(), "out " + "build of a line 2\n".encode().hex(), "exit 0"],
@@ -48,11 +53,11 @@ def make_repo(s, maxr, out_dir=None):
     foreign = False
     if out_dir == "@foreign-cwd":
         out_dir, foreign = None, True
-    cmds = {"a": {"build": "x", "lint": "x"}, "b": {"test": "x", "lint": "x"}}
+    cmds = {"a": {"build": "x", "lint": "x", "result.json.zst": "x"}, "b": {"test": "x", "lint": "x"}}
     # Monorail.json (which carries per-scratch ports) is kept out of git so that HEAD, and with it the
     # checkpoint id stored in the copied output directory, is the same in every scratch repository
     r = sc.Repo(s, "r", TARGETS, commands=cmds, max_retained_runs=maxr, init_git=True,
-                cfg_extra={"out_dir": out_dir} if out_dir else None,
+                cfg_extra=dict({"sequences": {"noop": []}}, **({"out_dir": out_dir} if out_dir else {})),
                 files={".gitignore": "monorail-out\nMonorail.json\n" + ("%s\n" % out_dir.split("/")[0] if out_dir else "")})
     for (c, t), (lines, _, _) in SCRIPTS.items():
         r.set_script(t, c, lines)
@@ -254,7 +259,14 @@ def transition(task):
         viol = []
         if run.get("aborts"):
             if res.code in (0, 1) and doc is not None:
-                viol.append(("abort-did-not-abort", "the unspawnable command did not make the run fail fatally: exit %s" % res.code))
+                # it printed a result document and ended like a completed run: then it IS the most recent
+                # completed run and `result show` has to return that document
+                rs = r.mr("result", "show")
+                if rs.code != 0 or canon_result(rs.json()) != canon_result(doc):
+                    viol.append(("result-show-differs", "%s ended like a completed run (exit %s, document printed) but result show gives exit %s %s" % (
+                        run["name"], res.code, rs.code, (rs.err or rs.out)[:200])))
+                    return {"key": None, "violations": _wrap(viol, maxr, history + [ri], out_dir), "obs": None, "ran": {}}
+                return {"engine_error": "%s was expected to end with a fatal error but completed and was recorded (exit %s): the history model does not apply" % (run["name"], res.code)}
             last_doc = ran_hist.get("doc")
             completed = [h for h in history if not RUNS[h].get("aborts") and not RUNS[h].get("noop")]
             if last_doc is not None and completed:
@@ -444,8 +456,8 @@ def run(prop, tier):
                 with_abort = odir == "@with-abort"
                 if with_abort:
                     odir = None
-                    cap = 5 if tier == "quick" else 7   # bounded depth: aborted runs leave debris, the space is large
-                alphabet = [i for i in range(len(RUNS)) if with_abort or not RUNS[i].get("aborts")]
+                    cap = 4 if tier == "quick" else 7   # bounded depth: aborted runs leave debris, the space is large
+                alphabet = [i for i in range(len(RUNS)) if with_abort or not (RUNS[i].get("aborts") or RUNS[i].get("extra"))]
                 while frontier and depth < cap:
                     tasks = [((maxr, odir) if odir else maxr, store, k, h, ri, rh) for (k, h, rh) in frontier for ri in alphabet]
                     results = common.pmap(transition, tasks)
